@@ -345,6 +345,30 @@ pub fn c06(opts: &Opts, out: &mut Out) {
             prover_case(out, "degree-more", n, t, &base_v, &base_v, &none_p, &more, &bl, &mut rng);
         }
     }
+    // several values out of range at once, chosen so that an aggregate of the per-opening excess (a wrapping sum, an
+    // exclusive or) cancels: m values of 2^63 with m * 2^(63-n) = 2^64, and pairs of equal out-of-range values
+    for (n, m) in [(1usize, 4usize), (2, 8), (1, 8), (4, 2), (8, 4)] {
+        let t = 1 + (n + m) % 2;
+        let none_p: Vec<Option<u64>> = vec![None; m];
+        let bl: Vec<Vec<Scalar>> = (0..m).map(|_| (0..t).map(|_| Scalar::random(&mut rng)).collect()).collect();
+        let all_big: Vec<u64> = vec![1u64 << 63; m];
+        classes.insert((n, m, 0, "all-2^63".to_string()));
+        prover_case(out, "all-values-2^63", n, t, &all_big, &all_big, &none_p, &bl, &bl, &mut rng);
+        let mut pair: Vec<u64> = (0..m).map(|i| (i as u64) & ((1u64 << n) - 1)).collect();
+        pair[0] = 1u64 << n;
+        pair[m - 1] = 1u64 << n;
+        classes.insert((n, m, 0, "equal-pair-out-of-range".to_string()));
+        prover_case(out, "two-equal-values-2^n", n, t, &pair, &pair, &none_p, &bl, &bl, &mut rng);
+        let mut spread: Vec<u64> = pair.clone();
+        spread[0] = (1u64 << 63) | 1;
+        spread[m - 1] = (1u64 << 63) | 1;
+        if m >= 4 {
+            spread[1] = 1u64 << 63;
+            spread[2] = 1u64 << 63;
+        }
+        classes.insert((n, m, 0, "several-high-values".to_string()));
+        prover_case(out, "several-values-with-the-top-bit", n, t, &spread, &spread, &none_p, &bl, &bl, &mut rng);
+    }
     out.stat("distinct_classes", classes.len());
     out.case("per (bits, aggregation, position j): v=2^n-1, p=v, v=0/p=0 (valid); v=2^n, v=2^n with p=1, v=u64::MAX, p=v+1, wrong blinding, wrong value (single violations); extra/missing opening, witness of lower/higher degree".into());
 }
